@@ -90,6 +90,7 @@ structure Event where
   inFunction : Bool
   ctx : Ctx
   depth : Nat
+  stack : List Ctx := []     -- the whole context stack at that moment (innermost first); not observable in Go
   deriving DecidableEq, Repr
 
 structure PErr where
@@ -232,7 +233,7 @@ def PS.isInFunction (st : PS) : Bool := st.ctx.contains .function
 
 def PS.event (st : PS) (isExpr : Bool) (id : Nat) : Event :=
   { isExpr := isExpr, id := id, cur := st.cur, inFunction := st.isInFunction,
-    ctx := st.currentContext, depth := st.ctx.length }
+    ctx := st.currentContext, depth := st.ctx.length, stack := st.ctx }
 
 /-! ## literal validity: strconv.ParseInt(lit, 0, 64) / strconv.ParseFloat(lit, 64) succeed -/
 
